@@ -248,7 +248,7 @@ Definition step (q : query) (mid : N) (g : option N) (f : option Z) (st : aggs) 
       if q_group q then                         (* TwoSourceAggregator *)
         match g, f with
         | None, None => st
-        | Some t, None => Aggs (alter (0%N, t) (fun o => add_ne (or_new (q_scale q) o)) (a_bins st)) (a_ne st)
+        | Some t, None => Aggs (alter (b, t) (fun o => add_ne (or_new (q_scale q) o)) (a_bins st)) (a_ne st)   (* f3224d2: in the document's time bin *)
         | None, Some _ => Aggs (a_bins st) (a_ne st + 1)
         | Some t, Some v => Aggs (alter (b, t) (fun o => insert_val collect v (or_new (q_scale q) o)) (a_bins st)) (a_ne st)
         end
@@ -258,6 +258,17 @@ Definition step (q : query) (mid : N) (g : option N) (f : option Z) (st : aggs) 
         | Some v => Aggs (alter (b, 0%N) (fun o => insert_val collect v (or_new (q_scale q) o)) (a_bins st)) (a_ne st)
         end
   end.
+
+(* TwoSourceAggregator before the repair f3224d2: a document with the group token but without the field
+   was counted in the bin WITHOUT timestamp (MID 0, group) even for a time series, where Aggregate
+   (SkipWithoutTimestamp) then drops it.  Kept to document the finding. *)
+Definition step_v0 (q : query) (mid : N) (g : option N) (f : option Z) (st : aggs) : aggs :=
+  if is_field_func (q_func q) && q_group q then
+    match g, f with
+    | Some t, None => Aggs (alter (0%N, t) (fun o => add_ne (or_new (q_scale q) o)) (a_bins st)) (a_ne st)
+    | _, _ => step q mid g f st
+    end
+  else step q mid g f st.
 
 (* SingleSourceCountAggregator.Aggregate: the legacy "_not_exists" bin (overwrites) *)
 Definition finish (q : query) (st : aggs) : aggs :=
@@ -271,6 +282,11 @@ Definition finish (q : query) (st : aggs) : aggs :=
 
 (* SingleSourceHistogramAggregator never sets AggregatableSamples.NotExists: [step] leaves a_ne at 0
    for a field function without group *)
+
+(* one fraction with the aggregator as it was before f3224d2 *)
+Definition frac_direct_v0 (q : query) (ds : list doc) : aggs :=
+  fold_left (fun st d => if selected (q_from q) (q_to q) d
+                         then step_v0 q (d_mid d) (d_grp d) (d_fld d) st else st) ds empty_aggs.
 
 (* direct per-document pass over one fraction (documents in LID order) *)
 Definition frac_direct (q : query) (ds : list doc) : aggs :=
